@@ -119,7 +119,7 @@ static void emitState(const Spec& S, const Model& M, const Integrator& I, const 
     L.s(INTEG_NAMES[S.integ]).i(status).i(interp).s(eventAfter ? "after" : "ret").s(g_tag);
     L.emit();
     // the same norms in floating point
-    auto norm = [&](const std::vector<double>& v) { double s2 = 0, m = 0; for (double x : v) { s2 += x * x; m = std::max(m, std::fabs(x)); }
+    auto norm = [&](const std::vector<double>& v) { double s2 = 0, m = 0; for (double x : v) { if (!(x == x)) return (double)NaN; s2 += x * x; m = std::max(m, std::fabs(x)); }
                                                     return v.empty() ? 0.0 : (inf ? m : std::sqrt(s2 / v.size())); };
     std::vector<double> a, b, c;
     for (int i = 0; i < mHolo; ++i) a.push_back(qerr[i] * qw[i]);
